@@ -141,18 +141,21 @@ def run(tier, seed):
     plan = []
     q = tier == "quick"
     for v in ("tsan", "tsan_ndebug"):
-        plan += [(v, ["refcount", 8, 20000 if q else 200000, 2], None, ""), (v, ["refcount", 3, 30000 if q else 300000, 1], None, ""), (v, ["release", 8, 1500 if q else 20000], None, ""),
+        plan += [(v, ["refcount", 8, 20000 if q else 200000, 2], None, ""), (v, ["refcount", 3, 30000 if q else 300000, 1], None, ""), (v, ["release", 8, 1500 if q else 20000], None, ""), (v, ["release", 2, 3000 if q else 40000], None, ""),
                  (v, ["disjoint", 6, 150 if q else 2000], None, ""), (v, ["readers", 8, 15000 if q else 200000], None, ""), (v, ["seed", 8, 1], {"VF_SEED_MODE": "barrier:8"}, "")]
     reps = 20 if q else 200
     for i in range(reps):
         nt = [2, 4, 8, 16, 32][i % 5] if not q else [4, 8, 16][i % 3]
         plan.append(("thr", ["refcount", nt, 1000000 // max(1, nt // 4) if q else 4000000, 1 + i % 4], None, ""))
-    for i in range(6 if q else 40):
-        plan.append(("thr", ["release", [4, 8, 16][i % 3], 20000 if q else 200000], None, ""))
+    for i in range(10 if q else 60):
+        plan.append(("thr", ["release", [2, 3, 4, 8, 16][i % 5], 20000 if q else 200000], None, ""))
     plan.append(("thr", ["readers", 12, 300000], None, ""))
     for i in range(300 if q else 20000):
         nt = [2, 4, 8, 16][i % 4]
         plan.append(("thr", ["seed", nt, 1], {"VF_SEED_MODE": "barrier:%d" % nt}, ""))
+    for i in range(24 if q else 400):
+        plan.append(("thr", ["seed", [1, 2, 4, 8][i % 4], 1], {"VF_SEED_MODE": "minus1"}, ""))
+    plan.append(("tsan", ["seed", 4, 1], {"VF_SEED_MODE": "minus1"}, ""))
     sh = core.parallel(job, seed=seed, tier=tier, exes=exes, plan=plan)
     chk.absorb(sh)
     chk.rule = ("ENABLE_THREADING builds: (1) ThreadSanitizer (asserts on, and -DNDEBUG) over 6 scenarios: net-zero get/put by 3-8 threads on shared nodes, concurrent final release, disjoint trees, "
